@@ -32,6 +32,7 @@ from props.c03 import (DTYPES, LAYOUTS, UNITS, apply_layout, gen_layout, arr_jso
 from qv.driver import b2f, f2b
 
 LEVEL = "proof"
+EXTRA_PROPS = ["QuantemModel.Props.C06Ext"]      # growth round 6: calibration N-D / order independence / kernel form
 MANIFEST_ENTRY = {
     "category": "proof",
     "text": "Lean 4 theorems over an executable model of Dataset.bin/pad/crop/fourier_resample (Model/Resample.lean; generic "
